@@ -699,7 +699,9 @@ class Interp:
             return [(len(v) > 0, st)]
         if isinstance(v, (Ref, E, ClsV, FnV, LibFn, Pdu, Holder, Rec, ExcV)):
             if isinstance(v, E):
-                return [(True, st)] if v.name != "$ZERO" else [(False, st)]
+                if v.name == "$OTHER":
+                    return self.fork_bool(("truth", v), st)
+                return [(not self.prog.enum_is_falsy(v.cls, v.name), st)]
             return [(True, st)]
         if isinstance(v, Tup):
             return [(len(v.items) > 0, st)]
